@@ -7,6 +7,7 @@ import (
 	"os"
 	"path/filepath"
 	"reflect"
+	"sort"
 	"strings"
 	"testing"
 
@@ -40,6 +41,21 @@ func TestC13_Boosts(t *testing.T) {
 		}
 		opt := gen.Options(t, gen.OptSpec{N: len(cmds), BigLimit: true, NoBoosts: true})
 		toks := gen.Tokens(cmds)
+		overCap := false
+		if rapid.IntRange(0, 5).Draw(t, "over-the-term-cap") == 0 {
+			// more distinct indexed words than the engine keeps for a long query: which ones it keeps
+			// is no business of the context either
+			c := rapid.SampledFrom([]int{5, 6, 8, 10, 0}).Draw(t, "term-cap")
+			keep := c
+			if keep == 0 {
+				keep = 10
+			}
+			ws := rapid.SliceOfNDistinct(rapid.SampledFrom(append([]string{"zzqx"}, toks...)), 0, keep+6, func(s string) string { return strings.ToLower(s) }).Draw(t, "over-cap-words")
+			if qq := strings.Join(ws, " "); len(ref.Tokenize(qq)) > keep && ref.Distinct(ref.Tokenize(qq)) {
+				q, qc, overCap = qq, "over-cap", true
+				opt.TopTermsCap = c
+			}
+		}
 		qtoks := ref.Tokenize(q)
 		pool := append(append([]string{"zzqx", "git", "docker", "build"}, toks...), qtoks...)
 		pool = append(pool, qtoks...) // query words are the interesting ones
@@ -56,6 +72,25 @@ func TestC13_Boosts(t *testing.T) {
 		boosts := map[string]float64{}
 		for i := rapid.IntRange(1, 3).Draw(t, "nb"); i > 0; i-- {
 			boosts[rapid.SampledFrom(pool).Draw(t, "bw")] = rapid.SampledFrom([]float64{1, 1.3, 1.5, 2, 2.5, 3, 5}).Draw(t, "bf")
+		}
+		if overCap && rapid.IntRange(0, 3).Draw(t, "boost-commonest") > 0 {
+			// the context names the most common of the later words (the ones a pruning step would drop first)
+			docs := ref.Index(cmds)
+			df := func(w string) int {
+				n := 0
+				for i := range docs {
+					if docs[i].Has(w) {
+						n++
+					}
+				}
+				return n
+			}
+			later := append([]string(nil), qtoks[4:]...)
+			sort.SliceStable(later, func(i, j int) bool { return df(later[i]) > df(later[j]) })
+			boosts = map[string]float64{}
+			for _, w := range later[:min(len(later), rapid.IntRange(1, 3).Draw(t, "n-common"))] {
+				boosts[w] = rapid.SampledFrom([]float64{2, 3, 5}).Draw(t, "bf-common")
+			}
 		}
 		with := opt
 		with.ContextBoosts = boosts
